@@ -361,3 +361,12 @@ pub proof fn lemma_bint_lin_all<const N: usize>()
     }
 }
 } // verus!
+
+verus! {
+/// T-bnum: number of trailing zero bits, in arithmetic form (64 N for zero)
+pub assume_specification<const N: usize> [ BUint::<N>::trailing_zeros ] (a: BUint<N>) -> (r: u32)
+    ensures
+        uv(a) == 0 ==> r as int == 64 * N,
+        uv(a) != 0 ==> (r as int) < 64 * N && uv(a) % vstd::arithmetic::power2::pow2(r as nat) == 0
+            && (uv(a) / vstd::arithmetic::power2::pow2(r as nat)) % 2 == 1;
+} // verus!
